@@ -22,7 +22,7 @@ def build(cw, g, gen, kinds, suites, n=N):
             s = cw.session(kem, kdf, aead, sid="G%d%s" % (si, which))
             gen.add_keys(s, g, kem, "kR")
             for flip in (n - 3, 100):
-                s.call("giant_str", which=which, len=n, flip=flip, pkr="$kR.pk", skr="$kR.sk", rng=g.rbytes(gen.nsk(kem)) + "aa" * 8,
+                s.call("giant_str", which=which, len=n, flip=flip, pkr="$kR.pk", skr="$kR.sk", rng=g.raw(gen.nsk(kem)).hex() + "aa" * 8,
                        psk=g.rbytes(32), pskid="6964")
 
 
